@@ -272,15 +272,24 @@ def monthrange1 (y m : Int) : Py.R Int :=
 def hasAbsTime (self : RD) : Bool :=
   self.hour.isSome || self.minute.isSome || self.second.isSome || self.microsecond.isSome
 
+/-- the arguments of `replace` are parsed as C `int`s: a Python int outside that range is an
+    OverflowError before any range validation happens -/
+def fitsCInt (t : DT) : Bool :=
+  decide (-2147483648 ≤ t.y ∧ t.y ≤ 2147483647 ∧ -2147483648 ≤ t.m ∧ t.m ≤ 2147483647 ∧
+          -2147483648 ≤ t.d ∧ t.d ≤ 2147483647 ∧ -2147483648 ≤ t.hh ∧ t.hh ≤ 2147483647 ∧
+          -2147483648 ≤ t.mm ∧ t.mm ≤ 2147483647 ∧ -2147483648 ≤ t.ss ∧ t.ss ≤ 2147483647 ∧
+          -2147483648 ≤ t.us ∧ t.us ≤ 2147483647)
+
 /-- lines 379-387 `other.replace(**repl)`: a `date` rejects time keywords (TypeError);
-    field validation is the constructor's (ValueError) -/
+    C-int conversion (OverflowError), then the constructor's field validation (ValueError) -/
 def replaced (self : RD) (o : Temporal) (year month day : Int) : Py.R DT :=
   if o.kind = .date ∧ hasAbsTime self then .error .TypeError
   else
     let t : DT := { y := year, m := month, d := day,
                     hh := self.hour.getD o.t.hh, mm := self.minute.getD o.t.mm,
                     ss := self.second.getD o.t.ss, us := self.microsecond.getD o.t.us }
-    if t.valid then .ok t else .error .ValueError
+    if ¬ fitsCInt t then .error .OverflowError
+    else if t.valid then .ok t else .error .ValueError
 
 /-- the `datetime.timedelta(days=, hours=, minutes=, seconds=, microseconds=)` of lines 388-392, in µs -/
 def deltaMicros (self : RD) (days : Int) : Int :=
